@@ -30,8 +30,8 @@ RULE = (
     'input open and none afterwards. (c) tracemalloc peak of every streaming path (add_streamed_object, '
     'add_streamed_objects_to_pack plain/compressed, pack_all_loose NO/YES/AUTO, repack NO->YES / YES->NO / KEEP, validate, '
     'chunked read of loose / packed / compressed, import_objects with a budget below the object size) on generated streams '
-    'of 1 MiB vs 8 MiB (quick) / 32 MiB (thorough), compressible and incompressible: peak(big) - peak(1 MiB) < 4 MiB and '
-    'peak(big) < 12 MiB. Non-trivial: (a) history with a pack-writing op; (b) request spanning >= 2 files; (c) size >= 8 MiB.'
+    'of 4 MiB vs 12 MiB (quick) / 32 MiB (thorough), compressible and incompressible: peak(big) - peak(4 MiB) < (big - 4 MiB)/4 '
+    'and peak(big) < 3/4 of the object size. Non-trivial: (a) history with a pack-writing op; (b) request spanning >= 2 files; (c) size >= 8 MiB.'
 )
 ASSUMPTIONS = [
     'native allocations of zlib / SQLite are invisible to tracemalloc; RSS is not used as an oracle',
@@ -328,27 +328,42 @@ def measure(path_name, size, kind):
         rm_dir(root)
 
 
+SMALL_MIB = 4
+
+
+def memory_verdict(small, big, big_mib):
+    """Metamorphic oracle: between two object sizes that are both far above any sensible chunk size, the traced peak must not
+    follow the object size. Returns a problem string or None."""
+    grow_limit = (big_mib - SMALL_MIB) * MIB // 4
+    if big - small >= grow_limit:
+        return f'peak grows with the object size: {small} bytes at {SMALL_MIB} MiB, {big} bytes at {big_mib} MiB (allowed growth {grow_limit})'
+    if big >= big_mib * MIB * 3 // 4:
+        return f'peak {big} bytes for a {big_mib} MiB object: the object is (almost) entirely held in memory'
+    return None
+
+
 def part_c(ctx, big_mib):
     combos = [(p, k) for p in STREAM_PATHS for k in ('random', 'text')]
     for index, (path_name, kind) in enumerate(combos):
         if not ctx.mine(index):
             continue
-        small = measure(path_name, MIB, kind)
+        small = measure(path_name, SMALL_MIB * MIB, kind)
         big = measure(path_name, big_mib * MIB, kind)
         ctx.stats.label(f'c:{path_name}')
-        ctx.stats.extra.setdefault('peaks_bytes', {})[f'{path_name}/{kind}/{big_mib}MiB'] = [small, big]
-        if big - small >= 4 * MIB or big >= 12 * MIB:
+        ctx.stats.extra.setdefault('peaks_bytes', {})[f'{path_name}/{kind}/{SMALL_MIB}vs{big_mib}MiB'] = [small, big]
+        problem = memory_verdict(small, big, big_mib)
+        if problem:
             ctx.stats.violations.append(
                 {
                     'property': PROP,
                     'sig': f'memory:{path_name}',
-                    'msg': f'{path_name} ({kind}): traced peak {small} bytes at 1 MiB but {big} bytes at {big_mib} MiB - memory grows with object size',
+                    'msg': f'{path_name} ({kind}): {problem}',
                     'case': {'part': 'c', 'path': path_name, 'kind': kind, 'big_mib': big_mib},
                     'log': None,
                 }
             )
             return
-        ctx.stats.record(True, ['c', path_name, kind, big_mib], {'part': 'c', 'path': path_name, 'kind': kind, 'peak_1MiB': small, f'peak_{big_mib}MiB': big})
+        ctx.stats.record(True, ['c', path_name, kind, big_mib], {'part': 'c', 'path': path_name, 'kind': kind, f'peak_{SMALL_MIB}MiB': small, f'peak_{big_mib}MiB': big})
 
 
 def run_shard(ctx):
@@ -361,15 +376,16 @@ def run_shard(ctx):
     explore(ctx, strategy_b(), run_case_b, 60 if quick else 8000, salt=1)
     if ctx.stats.violations:
         return
-    part_c(ctx, 8 if quick else 32)
+    part_c(ctx, 12 if quick else 32)
 
 
 def replay(case):
     if case.get('part') == 'c':
-        small = measure(case['path'], MIB, case['kind'])
+        small = measure(case['path'], SMALL_MIB * MIB, case['kind'])
         big = measure(case['path'], case['big_mib'] * MIB, case['kind'])
-        if big - small >= 4 * MIB or big >= 12 * MIB:
-            raise Violation(PROP, f'memory:{case["path"]}', f'peak {small} at 1 MiB, {big} at {case["big_mib"]} MiB')
+        problem = memory_verdict(small, big, case['big_mib'])
+        if problem:
+            raise Violation(PROP, f'memory:{case["path"]}', problem)
         return
     if 'ops' in case:
         replay_history(case, PROP, checkers_a)
